@@ -44,6 +44,7 @@ THEOREMS = [
     "NfcVerif.C12.isodep_absorbs_before_0010",
     "NfcVerif.C12.isodep_block_bound",
     "NfcVerif.C12.isodep_block_bound_derived",
+    "NfcVerif.C12.isodep_block_bound_any_card",
     "NfcVerif.C12.fsc_fwt_derivation",
     "NfcVerif.C12.ats_derivation",
     "NfcVerif.C12.ats_tl_only",
@@ -245,17 +246,22 @@ def run(ck):
     ck.rule = ("case = (activation kind A/B, FSCI, FWI, device limits, card response block size, S(WTX) placement, "
                "response length, command sequence, fault script); distinct by hash of the canonical case; "
                "non-trivial = at least one fault of the script was consumed, or a command or response was chained, "
-               "or the card asked for waiting time")
+               "or the card asked for waiting time; for the rule-less cards (scripted answers, answers repeated for ever) a case "
+               "is (activation, fault script, answers, operations) and counts as non-trivial when the card answers at all")
     ck.assumptions += [
-        "the card follows ISO/IEC 14443-4 (block numbering rules C-E, block handling rules 2, 3, 9-13, no CID/NAD); "
-        "a misbehaving card is out of scope except for the exception-class theorem, which holds for every card",
+        "the card follows ISO/IEC 14443-4 (block numbering rules C-E, block handling rules 2, 3, 9-13, no CID/NAD) in the "
+        "at-most-once / exact-response / absorbed-faults theorems; termination, the frame bound, the error kinds, the block "
+        "sizes and 'once failed, always failed' hold for every card whatsoever",
+        "absorbed faults additionally: S(WTX) multiplier 1..59, at most W requests per block with W * WTXM <= max_wtxm_sum, "
+        "non-empty chained response blocks, response of at most 65539 octets (CardOk); 2k <= n_retry",
         "clf.exchange reports a lost block as TimeoutError, a corrupted one as TransmissionError (the card stays mute on a "
         "corrupted block), and may raise ProtocolError or return an empty frame",
         "a session starts with an activation (PCD block number 0, PICC block number 1); nothing is assumed about how "
         "earlier exchanges of the session ended",
         "the model functions equal the Python functions outside the compared inputs (D-tie: exhaustive where stated, sampled beyond)",
     ]
-    ck.trusted += ["hand-written Lean model NfcVerif.Model.IsoDep, tied by differential runs",
+    ck.trusted += ["hand-written Lean models NfcVerif.Model.IsoDepV2 (repaired initiator) and NfcVerif.Model.IsoDep (PICC, air interface), "
+                   "tied by differential runs",
                    "harness/sims/iso_card.py (PICC simulator and fault channel), harness/props/c12.py"]
     ck.lean("NfcVerif.Props.C12", THEOREMS)
     if ck.thorough:
@@ -379,8 +385,12 @@ def run(ck):
         return air, card, results
 
     def legs_of(cfg, cmds):
-        tag, air, card, results = run_real(cfg, "", cmds, sims, tt4, nfc.clf)
-        return air.pos
+        try:
+            tag, air, card, results = run_real(cfg, "", cmds, sims, tt4, nfc.clf)
+            return air.pos
+        except Exception as e:  # noqa - reported by one() for the same configuration; any number of legs will do
+            ck.fail("isodep-unexpected-behaviour", "%s: %s (%s)" % (type(e).__name__, e, where(e)), {"config": cfg.as_dict()})
+            return 6
 
     # ------------------------------------------------------------------ the two known witnesses, always
     # F16: fault while the card asks for waiting time; S(WTX) during response chaining
@@ -496,16 +506,29 @@ def run(ck):
                         [b"\xf2\x01", b"\x12" + big, b"\xf2\x01", b"\x13" + big], [b"\x12" + big, None, b"\x13" + big, None]):
                 flood("A", 8, fwi, "", [], cyc, [short], "flood:chaining")
                 flood("B", 0, fwi, "", [b"\xa2", b"\xa3"], [cyc[(i + 0) % len(cyc)] for i in range(len(cyc))], [chained_cmd], "flood:chaining")
-    # response size at the limit: 65538 / 65539 octets pass, one chained block more does not
-    if ck.thorough:
-        for total in (65537, 65538, 65539, 65540, 65792):
-            blocks, left, bn = [], total, 0
-            while left > 0:
-                nxt = min(253, left)
-                left -= nxt
-                blocks.append(bytes([(0x12 if left else 0x02) | bn]) + bytes(nxt))
-                bn ^= 1
+    # response size at the limit: R(ACK) is sent while the response collected so far has at most 65538 octets, so every
+    # response of up to 65539 octets is returned completely (L3: judged here against the octets the card sent)
+    def sized(sizes):
+        blocks, bn = [], 0
+        for k, n in enumerate(sizes):
+            blocks.append(bytes([(0x12 if k + 1 < len(sizes) else 0x02) | bn]) + bytes((k + 3 * i) % 256 for i in range(n)))
+            bn ^= 1
+        return blocks
+    for x in ((65538, 65539) if not ck.thorough else (65535, 65536, 65537, 65538, 65539, 65540, 65791)):
+        for tail in ([1], []) if x != 65791 else ([],):
+            sizes = [253] * 259 + [x - 65527] + tail
+            if sum(sizes) > 65539 and not tail and x != 65791:
+                continue
+            blocks = sized(sizes)
+            before, n0 = len(ck.fails), len(cyc_reqs)
             flood("A", 8, 14, "", blocks, [], [short], "response size limit")
+            total = b"".join(b[1:] for b in blocks)
+            if len(cyc_reqs) == n0 + 1 and before == len(ck.fails) and (x <= 65538 if tail else len(total) <= 65539):
+                got = cyc_reqs[-1][1].split(" | ")[0]
+                if got != "ok " + total.hex():
+                    ck.fail("isodep-response-size-limit", "a response of %d octets (%d collected when the last R(ACK) was due) ended in %s"
+                            % (len(total), x if tail else x - sizes[-1], got[:60]), {"blocks": "259 x 253 octets, %s" % sizes[259:], "impl": got[:80]})
+
     # random cards from an alphabet of well-formed and odd blocks
     alphabet = [b"\xf2\x01", b"\xf2\x3b", b"\xf2\x3c", b"\xf2\x00", b"\xf3\x02", b"\xa2", b"\xa3", b"\xb2", b"\xb3", b"\x02\x90\x00",
                 b"\x03\x90\x00", b"\x12", b"\x13", b"", None, b"\xf2", b"\xc2", b"\x0a\x00", b"\x12" + big]
@@ -519,6 +542,14 @@ def run(ck):
         cmds = [None if rng.random() < 0.15 else make_cmd(rng, rng.choice([1, 5, 13, 14, 30]), 0xA0 + j) for j in range(ncmd)]
         script = "".join(rng.choice(KINDS) if rng.random() < 0.1 else "d" for _ in range(rng.randrange(0, 12))).rstrip("d")
         flood(rng.choice("AB"), rng.choice([0, 0, 2, 8]), fwi, script, prefix, cycle, cmds, "random card with a cycle")
+
+    # open finding (side effect of fixes/C08/0010): with a retry budget of 1 a command block that is lost on its way to the
+    # card is not recovered - R(NAK) is answered by R(ACK) and the retransmission would be count 2
+    r = one(Cfg("A", 8, 11, 256, 256, 253, (0, 0, 0), 1, 4), "l", [b"\x00\xb0\x00\x00\x04"], "witness")
+    if r is not None and not r[2][0].startswith("ok"):
+        ck.fail("isodep-lost-block-not-absorbed-with-budget-1", "FWI 11 (one retry), the I-block is lost once and nothing else happens: "
+                "%s, blocks sent %s" % (r[2][0], [b.hex() for b, _ in r[0].trace]),
+                {"config": "Type 4A, FSCI 8, FWI 11", "script": "l", "commands": ["00b0000004"]})
 
     # ------------------------------------------------------------------ activation parameters (exhaustive)
     act_reqs = []
@@ -796,7 +827,9 @@ def run(ck):
             tag = tt4.Type4BTag(air, nfc.clf.RemoteTarget("106B", sensb_res=bytearray(
                 [0x50, 1, 2, 3, 4, 0, 0, 0, 0, 0, (fsci << 4) | 1, fwi << 4])))
         results = []
+        air.marks = []
         for c in cmds:
+            air.marks.append(len(air.trace))
             try:
                 results.append(res_str(tag.transceive(bytearray(c))))
             except sims.SimLimit:
@@ -814,9 +847,15 @@ def run(ck):
         raw_reqs.append((line, real, replay))
         ck.case(("raw", fsci, fwi, tuple(replies), tuple(cmds)), len(replies) > 0, "rule-less card")
         for c, r in zip(cmds, results):
+            if r.startswith("ret "):
+                ck.fail("isodep-bad-return", "transceive returned %s" % r[4:], replay)
             if r.startswith("exc") and r[4:] not in ("TagCommandError(0)", "TagCommandError(-1)", "TagCommandError(-2)"):
                 ck.fail("isodep-raw-exception-any-card", "transceive(%s) raised %s against a card answering %s"
                         % (c.hex(), r[4:], replay["card_answers"]), replay)
+        for b, _t in air.trace:
+            if not is_wtx(b) and len(b) + 2 > FSC_TABLE[fsci]:
+                ck.fail("isodep-block-exceeds-fsc", "block %s (%d+2 octets) exceeds FSC %d" % (b.hex(), len(b), FSC_TABLE[fsci]), replay)
+        judge_wire(ck, air, min(int(1 / fwt_of(fwi)), 5), wlim_spec(fwi), replay)
 
     for _ in range(6000 if ck.thorough else 1500):
         if len(ck.fails) >= 50:
@@ -840,6 +879,9 @@ def run(ck):
                         dict(replay, request=line, model=rep))
         ck.tie(name, cases=len(batch), disagreements=dis, exhaustive=exh)
     ck.notes.append("%d scripts from the exhaustive enumerations (all placements of <= 2 or <= 3 faults over the legs of "
-                    "exchanges of <= 5 blocks, see distribution)" % nex)
+                    "exchanges of <= 5 blocks and of sessions of 3-5 operations with presence checks, see distribution)" % nex)
+    ck.notes.append("wire-level bounds (judge_wire) are checked on every run of every family: S(WTX) multiplier 1..59 and sum per "
+                    "block <= 59 * 2^(14-FWI), at most n_retry + 1 rounds per retry loop, R(ACK) only after a chained block with INF "
+                    "and while <= 65538 response octets are collected; interaction budget (SimLimit) for the cards that never stop")
     ck.notes.append("transceive(b'') raises UnboundLocalError (no block is sent); an empty string is not a command APDU, "
                     "the case is compared with the model but not judged by the oracle")
